@@ -42,8 +42,9 @@ def run_property(prop: str, repo: str, tier: str, only=None, evidence_dir=None, 
         return 2, []
     try:
         mod.run(ctx)
-        from checks import common_state
+        from checks import common_state, common_zero
         common_state.run(ctx)
+        common_zero.run(ctx)
     except Exception as e:  # a bug in a check must never look like a violation
         tb = traceback.extract_tb(sys.exc_info()[2])[-1]
         r = report.Result(prop, f"{prop}.*", "checker", UNDECIDED,
